@@ -138,4 +138,78 @@ func genGuards() {
 				"m.bitmap().IsBitmapPresenceBit(i)": "presence", "m.bitmap().IsSet(id)": "isSet", "ok": "found"}},
 	}
 	genGuardFile("GuardsBitmap.lean", bitmap)
+
+	// what the decoding functions RETURN besides the decision: the byte counts they report as read
+	// and the lengths they pass on (Props/GuardsReturns.lean)
+	rp := func(name, file, recv, defBy string, m map[string]string) guardSite {
+		return guardSite{Name: name + "_DecodeLength", OnlyRets: true, Slices: true, Rets: []int{0, 1}, Sig: []string{"p", "maxLen", "data"},
+			DefBy: map[string]string{defBy: "dataLen"}, File: file, Recv: recv, Func: "DecodeLength",
+			Params: []string{"maxLen", "dlen", "digits", "dataLen"},
+			Map: ids(merge(map[string]string{"p.Digits": "digits", "p.digits": "digits", "len(data)": "dlen", "len(prefBytes)": "digits",
+				"bcd.EncodedLen(p.Digits)": "((digits + 1) / 2)", "hex.EncodedLen(p.Digits)": "(digits * 2)"}, m), "maxLen", "dataLen")}
+	}
+	fx := func(name, file, recv string) []guardSite {
+		return []guardSite{
+			{Name: name + "Fixed_DecodeLength", OnlyRets: true, Rets: []int{0, 1}, Sig: []string{"p", "fixLen", "data"}, File: file, Recv: recv, Func: "DecodeLength",
+				Params: []string{"fixLen", "dlen"}, Map: ids(map[string]string{"len(data)": "dlen"}, "fixLen")},
+			{Name: name + "Fixed_EncodeLength", Sig: []string{"p", "fixLen", "dataLen"}, File: file, Recv: recv, Func: "EncodeLength",
+				Params: []string{"fixLen", "dataLen"}, Map: ids(nil, "fixLen", "dataLen")},
+		}
+	}
+	rd := func(name, file, recv, dataName string) guardSite {
+		return guardSite{Name: name + "_Decode", OnlyRets: true, Rets: []int{1}, Sig: []string{"e", dataName, "length"}, File: file, Recv: recv, Func: "Decode",
+			Params: []string{"length", "dlen"},
+			Map:    ids(map[string]string{"len(" + dataName + ")": "dlen", "hex.EncodedLen(length)": "(length * 2)"}, "length")}
+	}
+	unp := func(name, recv string) guardSite {
+		return guardSite{Name: name + "_Unpack", Slices: true, Rets: []int{1}, Args: map[string][]int{"spec.Enc.Decode": {1}},
+			Sig: []string{"", "packedFieldValue", "spec"}, File: "field/packer_unpacker.go", Recv: recv, Func: "Unpack",
+			DefAll: map[string][]string{"spec.Pref.DecodeLength": {"valueLength", "prefBytes"}, "spec.Enc.Decode": {"", "read"}},
+			Params: []string{"valueLength", "prefBytes", "read", "vlen", "hasPad:Bool"},
+			Map:    map[string]string{"spec.Pad!=nil": "hasPad", "len(value)": "vlen"}}
+	}
+	rets := []guardSite{
+		rp("ascii", "prefix/ascii.go", "asciiVarPrefixer", "strconv.Atoi", nil),
+		rp("ebcdic", "prefix/ebcdic.go", "ebcdicVarPrefixer", "strconv.Atoi", nil),
+		rp("ebcdic1047", "prefix/ebcdic1047.go", "ebcdic1047Prefixer", "strconv.Atoi", nil),
+		rp("bcd", "prefix/bcd.go", "bcdVarPrefixer", "strconv.Atoi", nil),
+		rp("binary", "prefix/binary.go", "binaryVarPrefixer", "bytesToInt", nil),
+		rp("hex", "prefix/hex.go", "hexVarPrefixer", "strconv.ParseUint", nil),
+		{Name: "ber_DecodeLength", OnlyRets: true, Rets: []int{0, 1}, Sig: []string{"p", "maxLen", "data"}, File: "prefix/bertlv.go", Recv: "berTLVPrefixer", Func: "DecodeLength",
+			Params: []string{"maxLen", "firstByte", "v"},
+			Map: ids(map[string]string{"bits.LeadingZeros8(firstByte)>0": "decide (firstByte < 128)", "len(length)": "(firstByte - 128)",
+				"bigLen.IsInt64()": "decide (v ≤ 9223372036854775807)", "bigLen.Int64()": "v"}, "maxLen", "firstByte")},
+		{Name: "none_DecodeLength", OnlyRets: true, Rets: []int{0, 1}, Sig: []string{"p", "maxLen", "data"}, File: "prefix/none.go", Recv: "nonePrefixer", Func: "DecodeLength",
+			Params: []string{"maxLen", "dlen"}, Map: ids(map[string]string{"len(data)": "dlen"}, "maxLen")},
+	}
+	rets = append(rets, fx("ascii", "prefix/ascii.go", "asciiFixedPrefixer")...)
+	rets = append(rets, fx("ebcdic", "prefix/ebcdic.go", "ebcdicFixedPrefixer")...)
+	rets = append(rets, fx("ebcdic1047", "prefix/ebcdic1047.go", "ebcdic1047FixedPrefixer")...)
+	rets = append(rets, fx("bcd", "prefix/bcd.go", "bcdFixedPrefixer")...)
+	rets = append(rets, fx("binary", "prefix/binary.go", "binaryFixedPrefixer")...)
+	rets = append(rets, fx("hex", "prefix/hex.go", "hexFixedPrefixer")...)
+	rets = append(rets,
+		rd("ascii", "encoding/ascii.go", "asciiEncoder", "data"),
+		rd("binary", "encoding/binary.go", "binaryEncoder", "data"),
+		rd("bcd", "encoding/bcd.go", "bcdEncoder", "src"),
+		rd("lbcd", "encoding/lbcd.go", "lBCDEncoder", "src"),
+		rd("bytesToHex", "encoding/hex.go", "hexToASCIIEncoder", "data"),
+		rd("hexToBytes", "encoding/hex.go", "asciiToHexEncoder", "data"),
+		rd("ebcdic", "encoding/ebcdic.go", "ebcdicEncoder", "src"),
+		rd("ebcdic1047", "encoding/ebcdic1047.go", "ebcdic1047Encoder", "data"),
+		guardSite{Name: "composite_Unpack", OnlyRets: true, Slices: true, Rets: []int{0}, Sig: []string{"f", "data"}, File: "field/composite.go", Recv: "Composite", Func: "Unpack",
+			DefAll: map[string][]string{"f.spec.Pref.DecodeLength": {"dataLen", "offset"}, "f.wrapErrorUnpack": {"read"}},
+			Params: []string{"dataLen", "offset", "dlen", "read"},
+			Map:    map[string]string{"len(data)": "dlen"}},
+		unp("default", "defaultUnpacker"),
+		unp("track2", "Track2Unpacker"),
+	)
+	genGuardFile("GuardsReturns.lean", rets)
+}
+
+func merge(a, b map[string]string) map[string]string {
+	for k, v := range b {
+		a[k] = v
+	}
+	return a
 }
